@@ -128,6 +128,16 @@ def judge_imports(items, info, chk, pc, nwarn):
             tys = [safe_str(TS(f.ty)).replace(' ', '') for f in st[0].fields if f.name == 'z']
             if tys and tys[0] != f"super::{info['qualified'][0].lower().replace('-', '_')}::{info['qualified'][1]}":
                 fails.append(('qualified', f"module-qualified reference rendered as {tys[0]}"))
+        qpath = f"super::{info['qualified'][0].lower().replace('-', '_')}::{info['qualified'][1]}"
+        for nm, wrap in (('La', 'SequenceOf'), ('Sa', 'SetOf'), ('CaL', 'SequenceOf')):
+            it = [i for i in m.items if i.kind == 'struct' and i.name == nm]
+            if not it:
+                if nm != 'CaL':
+                    fails.append(('qualified', f"{nm} not generated"))
+                continue
+            got = safe_str(TS(it[0].fields[0].ty)).replace(' ', '') if it[0].fields else ''
+            if got != f"{wrap}<{qpath}>":
+                fails.append(('qualified', f"module-qualified element type of {nm} rendered as {got}, expected {wrap}<{qpath}>"))
     if chk is not None:
         chk.res.obligations += 1
         if not fails:
@@ -163,7 +173,11 @@ def import_shapes(tier):
                 if uses_type == 'Tb':
                     comp += ", z Mod-B.Tb"
                     qual = ('Mod-B', 'Tb')
-                a = f"Ma DEFINITIONS AUTOMATIC TAGS ::= BEGIN IMPORTS {imp}; Ta ::= SEQUENCE {{ {comp} }} END"
+                extra = ''
+                if qual:
+                    # module-qualified references as element types of top-level and tagged-element collections
+                    extra = " La ::= SEQUENCE OF Mod-B.Tb Sa ::= SET (SIZE (1..4)) OF Mod-B.Tb Ca ::= SEQUENCE { l SEQUENCE OF [0] Mod-B.Tb }"
+                a = f"Ma DEFINITIONS AUTOMATIC TAGS ::= BEGIN IMPORTS {imp}; Ta ::= SEQUENCE {{ {comp} }}{extra} END"
                 text = '\n'.join([a] + mods)
                 sig = f"C12 imports [{','.join(k for _, k in syms)}]{' +2nd' if second else ''}{' wildcard' if wildcard else ''}"
                 out.append((sig, text, {'imports': imports, 'wildcard': wildcard, 'qualified': qual}))
